@@ -258,7 +258,7 @@ namespace CWorld
 syntax "ctl_ok" : tactic
 macro_rules
   | `(tactic| ctl_ok) =>
-    `(tactic| (constructor <;> simp_all [Holds, heldPc, prePc, dispPc, quietPc, isDE, CWorld.finish]))
+    `(tactic| (constructor <;> simp_all [Holds, heldPc, prePc, dispPc, quietPc, isDE, CWorld.finishDE, CWorld.finish]))
 
 syntax "stuck_or_cancel" : tactic
 macro_rules
